@@ -70,6 +70,8 @@ type Contract struct {
 	Opaque    []string // spec functions whose definitions are hidden (declared, not defined) in this function's VCs
 	used      bool
 	mentionedIDs map[string]bool
+	Params    []string // parameter names (receiver first) when the contract was written: a renamed parameter is found by position
+	Locals    []string // named locals of the function in source order when the contract was written (bin/gen-locals)
 }
 
 type LetDef struct {
@@ -444,6 +446,10 @@ func parseContractFile(path string, pkgPath string) ([]*Contract, error) {
 			cur.Overflow = true
 		case "uses":
 			cur.Uses = append(cur.Uses, strings.Fields(rest)...)
+		case "locals":
+			cur.Locals = strings.Fields(rest)
+		case "params":
+			cur.Params = strings.Fields(rest)
 		case "apply":
 			cur.Applies = append(cur.Applies, rest)
 		case "allocates":
